@@ -304,10 +304,104 @@ impl<T> FromSpecImpl<T> for Max<T> {
 //@      }
 //@    fn merge
 //@      touch self.v()
-//@      attr #[verifier::external_body] // BTreeMap::into_iter is outside vstd; contract checked by Kani (bounded) -- see kx/crdt
+//@      attr #[verifier::exec_allows_no_decreases_clause]
+//@      desugar_for
+//@      # BTreeMap::into_iter is outside vstd: the by-value iteration is a stand-in that yields every entry once (ent_order)
+//@      body_sub other\.into_iter\(\) => vx_entries(other)
+//@      nloops 1
+//@      loop 1
+//@        invariant
+//@          __vx_it1.s@ == ent_order(old_other) && 0 <= __vx_it1.k@ <= __vx_it1.s@.len()
+//@          V::lawful() ==> self.mv() == Self::join_v(old(self).mv(), pre_map::<K, V>(__vx_it1.s@, __vx_it1.k@))
+//@        ensures
+//@          __vx_it1.k@ == __vx_it1.s@.len()
+//@      head
+//@        let ghost old_other = other.raw()@;
+//@        proof { ent_order_props::<K, V>(old_other); lemma_join_empty::<K, V>(old(self).mv()); lemma_pre_map_all::<K, V>(old_other); }
+//@      hint 1 self\.insert\(k, v\);
+//@        let ghost vx_before = self.mv();
+//@      hint_after 1 self\.insert\(k, v\);
+//@        ent_order_props::<K, V>(old_other);
+//@        lemma_pre_map_dom::<K, V>(__vx_it1.s@, __vx_it1.k@ - 1);
+//@        assert(__vx_it1.s@[__vx_it1.k@ - 1].0 == k);
+//@        assert(forall|i: int| 0 <= i < __vx_it1.k@ - 1 ==> (#[trigger] __vx_it1.s@[i]).0 != __vx_it1.s@[__vx_it1.k@ - 1].0);
+//@        assert(!pre_map::<K, V>(__vx_it1.s@, __vx_it1.k@ - 1).dom().contains(k));
+//@        lemma_join_step::<K, V>(old(self).mv(), pre_map::<K, V>(__vx_it1.s@, __vx_it1.k@ - 1), k, v.v());
 //@end
 
 impl<K, V> GMap<K, V> { pub closed spec fn raw(self) -> BTreeMap<K, V> { self.inner } }
+/// the order in which a BTreeMap with these contents hands out its entries by value: ASSUMED to be a function of the contents
+pub uninterp spec fn ent_order<K, V>(m: Map<K, V>) -> Seq<(K, V)>;
+/// ASSUMED (BTreeMap::into_iter): every entry exactly once
+#[verifier::external_body]
+pub proof fn ent_order_props<K, V>(m: Map<K, V>)
+    ensures
+        forall|i: int| 0 <= i < ent_order(m).len() ==> m.contains_key(#[trigger] ent_order(m)[i].0) && m[ent_order(m)[i].0] == ent_order(m)[i].1,
+        forall|k: K| m.contains_key(k) ==> exists|i: int| 0 <= i < ent_order(m).len() && #[trigger] ent_order(m)[i].0 == k,
+        forall|i: int, j: int| 0 <= i < j < ent_order(m).len() ==> ent_order(m)[i].0 != ent_order(m)[j].0,
+{}
+pub struct Entries<K, V> { pub s: Ghost<Seq<(K, V)>>, pub k: Ghost<int>, pub rest: Vec<(K, V)> }
+impl<K, V> Entries<K, V> {
+    #[verifier::external_body]
+    pub fn next(&mut self) -> (r: Option<(K, V)>)
+        ensures final(self).s@ == old(self).s@,
+            old(self).k@ < old(self).s@.len() ==> r is Some && final(self).k@ == old(self).k@ + 1 && r->Some_0 == old(self).s@[old(self).k@],
+            old(self).k@ >= old(self).s@.len() ==> r is None && final(self).k@ == old(self).k@,
+    { unimplemented!() }
+}
+#[verifier::external_body]
+pub fn vx_entries<K, V>(g: GMap<K, V>) -> (r: Entries<K, V>) ensures r.s@ == ent_order(g.raw()@), r.k@ == 0 { unimplemented!() }
+/// the abstract map of the first `n` entries
+pub open spec fn pre_map<K, V: Semilattice>(s: Seq<(K, V)>, n: int) -> Map<K, V::V> decreases n {
+    if n <= 0 { Map::empty() } else { pre_map::<K, V>(s, n - 1).insert(s[n - 1].0, s[n - 1].1.v()) }
+}
+pub proof fn lemma_join_empty<K: Ord, V: Semilattice>(a: Map<K, V::V>)
+    ensures GMap::<K, V>::join_v(a, Map::<K, V::V>::empty()) =~= a
+{}
+pub proof fn lemma_join_step<K: Ord, V: Semilattice>(a: Map<K, V::V>, m: Map<K, V::V>, k: K, x: V::V)
+    requires !m.dom().contains(k)
+    ensures GMap::<K, V>::join_v(GMap::<K, V>::join_v(a, m), Map::<K, V::V>::empty().insert(k, x)) =~= GMap::<K, V>::join_v(a, m.insert(k, x))
+{}
+pub proof fn lemma_pre_map_dom<K, V: Semilattice>(s: Seq<(K, V)>, n: int)
+    requires 0 <= n <= s.len()
+    ensures forall|k: K| #[trigger] pre_map::<K, V>(s, n).dom().contains(k) <==> exists|i: int| 0 <= i < n && #[trigger] s[i].0 == k
+    decreases n
+{
+    if n > 0 {
+        lemma_pre_map_dom::<K, V>(s, n - 1);
+        assert forall|k: K| #[trigger] pre_map::<K, V>(s, n).dom().contains(k) <==> exists|i: int| 0 <= i < n && #[trigger] s[i].0 == k by {
+            assert(pre_map::<K, V>(s, n) == pre_map::<K, V>(s, n - 1).insert(s[n - 1].0, s[n - 1].1.v()));
+            if pre_map::<K, V>(s, n).dom().contains(k) {
+                if k == s[n - 1].0 { assert(s[n - 1].0 == k); } else {
+                    assert(pre_map::<K, V>(s, n - 1).dom().contains(k));
+                    let i = choose|i: int| 0 <= i < n - 1 && #[trigger] s[i].0 == k; assert(s[i].0 == k);
+                }
+            }
+            if exists|i: int| 0 <= i < n && #[trigger] s[i].0 == k {
+                let i = choose|i: int| 0 <= i < n && #[trigger] s[i].0 == k;
+                if i < n - 1 { assert(s[i].0 == k); }
+            }
+        }
+    }
+}
+pub proof fn lemma_pre_map_all<K, V: Semilattice>(m: Map<K, V>)
+    ensures pre_map::<K, V>(ent_order(m), ent_order(m).len() as int) =~= m.map_values(|x: V| x.v())
+{
+    ent_order_props::<K, V>(m);
+    let s = ent_order(m);
+    lemma_pre_map_vals::<K, V>(s, s.len() as int);
+    lemma_pre_map_dom::<K, V>(s, s.len() as int);
+    assert forall|k: K| pre_map::<K, V>(s, s.len() as int).dom().contains(k) <==> m.contains_key(k) by {
+        if m.contains_key(k) { let i = choose|i: int| 0 <= i < s.len() && #[trigger] s[i].0 == k; assert(s[i].0 == k); }
+    }
+}
+pub proof fn lemma_pre_map_vals<K, V: Semilattice>(s: Seq<(K, V)>, n: int)
+    requires 0 <= n <= s.len(), forall|i: int, j: int| 0 <= i < j < s.len() ==> s[i].0 != s[j].0
+    ensures forall|i: int| 0 <= i < n ==> pre_map::<K, V>(s, n)[#[trigger] s[i].0] == s[i].1.v()
+    decreases n
+{
+    if n > 0 { lemma_pre_map_vals::<K, V>(s, n - 1); }
+}
 
 //@extract crates/radicle-crdt/src/gset.rs
 //@  item struct GSet
